@@ -26,7 +26,8 @@
 //!            "opened port"). Script letters as for rtu; the outcome of an attempt depends on what
 //!            the harness managed to prepare during the preceding wait, so the ACTUAL outcome of
 //!            every attempt is reported (F = the open failed, D = the port opened and was lost) and
-//!            the caller computes the expected delays for the actual sequence.
+//!            the caller computes the expected delays for the actual sequence. Extra letter l = like r, and
+//!            during the wait that follows a decode-level change is sent through the ServerHandle.
 //! The Listener records every ClientState with a monotonic time stamp and holds the task at every
 //! `Connecting` announcement until the scripted peer is ready for the next attempt.
 //! output line: one field per announced wait, ','-separated:  <F|D><delay in ns><+|-|?>
@@ -145,11 +146,15 @@ async fn rtu_server_scenario(min: Duration, max: Duration, script: &str, n: usiz
     };
     let mut outcomes = script.chars();
     let total = script.chars().count();
-    if !prepare(outcomes.next(), &mut pty) {
+    // the outcome letter of the attempt that is in progress ('l' = like 'r', and during the wait that follows it a
+    // decode-level change is sent through the ServerHandle: it must not shorten the wait)
+    let mut current = outcomes.next();
+    if !prepare(current, &mut pty) {
         return "NOPTY".to_string();
     }
+    let mut level = false;
     let tag = format!("{:?}", link.to_str().unwrap());
-    let handle = match spawn_rtu_server_task(
+    let mut handle = match spawn_rtu_server_task(
         link.to_str().unwrap(),
         SerialSettings::default(),
         doubling_retry_strategy(min, max),
@@ -206,7 +211,13 @@ async fn rtu_server_scenario(min: Duration, max: Duration, script: &str, n: usiz
             if let Some((kind, d)) = wait {
                 out.push(format!("{kind}{}", d.as_nanos()));
                 pending = Some((d, t, out.len() - 1));
-                if !prepare(outcomes.next(), &mut pty) {
+                if current == Some('l') {
+                    level = !level;
+                    let l = if level { DecodeLevel::new(AppDecodeLevel::DataValues, FrameDecodeLevel::Payload, PhysDecodeLevel::Data) } else { DecodeLevel::nothing() };
+                    let _ = handle.set_decode_level(l).await;
+                }
+                current = outcomes.next();
+                if !prepare(current, &mut pty) {
                     return "NOPTY".to_string();
                 }
             }
